@@ -349,7 +349,7 @@ get_gray_rgb_row(j_compress_ptr cinfo, cjpeg_source_ptr sinfo)
     ERREXIT(cinfo, JERR_INPUT_EOF);
   ptr = source->pub._buffer[0];
   bufferptr = source->iobuffer;
-  if (maxval == (1U << cinfo->data_precision) - 1U) {
+  if (maxval == 255 && cinfo->data_precision == 8) {
     if (aindex >= 0)
       GRAY_RGB_READ_LOOP(*bufferptr++, ptr[aindex] = (_JSAMPLE)maxval;)
     else
@@ -381,7 +381,7 @@ get_gray_cmyk_row(j_compress_ptr cinfo, cjpeg_source_ptr sinfo)
     ERREXIT(cinfo, JERR_INPUT_EOF);
   ptr = source->pub._buffer[0];
   bufferptr = source->iobuffer;
-  if (maxval == (1U << cinfo->data_precision) - 1U) {
+  if (maxval == 255 && cinfo->data_precision == 8) {
     for (col = cinfo->image_width; col > 0; col--) {
       _JSAMPLE gray = *bufferptr++;
       rgb_to_cmyk(maxval, gray, gray, gray, ptr, ptr + 1, ptr + 2, ptr + 3);
@@ -418,7 +418,7 @@ get_rgb_row(j_compress_ptr cinfo, cjpeg_source_ptr sinfo)
     ERREXIT(cinfo, JERR_INPUT_EOF);
   ptr = source->pub._buffer[0];
   bufferptr = source->iobuffer;
-  if (maxval == (1U << cinfo->data_precision) - 1U) {
+  if (maxval == 255 && cinfo->data_precision == 8) {
     if (aindex >= 0)
       RGB_READ_LOOP(*bufferptr++, ptr[aindex] = (_JSAMPLE)maxval;)
     else
@@ -450,7 +450,7 @@ get_rgb_cmyk_row(j_compress_ptr cinfo, cjpeg_source_ptr sinfo)
     ERREXIT(cinfo, JERR_INPUT_EOF);
   ptr = source->pub._buffer[0];
   bufferptr = source->iobuffer;
-  if (maxval == (1U << cinfo->data_precision) - 1U) {
+  if (maxval == 255 && cinfo->data_precision == 8) {
     for (col = cinfo->image_width; col > 0; col--) {
       _JSAMPLE r = *bufferptr++;
       _JSAMPLE g = *bufferptr++;
@@ -752,7 +752,7 @@ start_input_ppm(j_compress_ptr cinfo, cjpeg_source_ptr sinfo)
         source->pub.get_pixel_rows = get_word_gray_cmyk_row;
       else
         ERREXIT(cinfo, JERR_BAD_IN_COLORSPACE);
-    } else if (maxval <= _MAXJSAMPLE && sizeof(_JSAMPLE) == sizeof(U_CHAR) &&
+    } else if (maxval == 255 && sizeof(_JSAMPLE) == sizeof(U_CHAR) &&
                maxval == ((1U << cinfo->data_precision) - 1U) &&
                cinfo->in_color_space == JCS_GRAYSCALE) {
       source->pub.get_pixel_rows = get_raw_row;
@@ -781,7 +781,7 @@ start_input_ppm(j_compress_ptr cinfo, cjpeg_source_ptr sinfo)
         source->pub.get_pixel_rows = get_word_rgb_cmyk_row;
       else
         ERREXIT(cinfo, JERR_BAD_IN_COLORSPACE);
-    } else if (maxval <= _MAXJSAMPLE && sizeof(_JSAMPLE) == sizeof(U_CHAR) &&
+    } else if (maxval == 255 && sizeof(_JSAMPLE) == sizeof(U_CHAR) &&
                maxval == ((1U << cinfo->data_precision) - 1U) &&
 #if RGB_RED == 0 && RGB_GREEN == 1 && RGB_BLUE == 2 && RGB_PIXELSIZE == 3
                (cinfo->in_color_space == JCS_EXT_RGB ||
